@@ -128,8 +128,29 @@ def streams(ctx):
 
 
 def run(ctx):
-    kw = {}
+    """the whole stream set under the default configuration, and the streams that carry ROUTE-REFRESH / unusual type
+    octets under a configuration whose local capability set is minimal (no route refresh of either kind, no
+    4-octet AS ...): framing must not depend on what was configured or negotiated"""
     sts = streams(ctx)
+    res = _run_cfg(ctx, {}, sts)
+    minimal = {'caps': {'four_bytes_as': False, 'route_refresh': False, 'cisco_route_refresh': False,
+                        'enhanced_route_refresh': False, 'graceful_restart': False, 'cisco_multi_session': False,
+                        'add_path': None}}
+    sub = [(n, st) for (n, st) in sts if any(x.startswith('route_refresh') or x.startswith('<type=') for x in n)]
+    if not ctx.thorough:
+        sub = sub[:40] + sub[40::7]
+    res2 = _run_cfg(ctx, minimal, sub)
+    for v in res2['violations']:
+        v['config'] = 'minimal local capability set'
+    for k in ('evaluations',):
+        res[k] += res2[k]
+    res['violations'] += res2['violations']
+    res['mismatches'] += res2['mismatches']
+    res['extra']['minimal_capability_config'] = {'streams': len(sub), 'segmentations_run': res2['extra']['segmentations_run']}
+    return res
+
+
+def _run_cfg(ctx, kw, sts):
     viol, traces, samples = [], [], []
     n_eval = 0
     distinct = set()
